@@ -21,6 +21,9 @@ import subprocess
 import zlib
 
 MODES = {"F": 0o100644, "X": 0o100755, "L": 0o120000}
+# permission bits the harness gives the files it writes: to git only the owner's execute bit
+# decides between 100644 and 100755, whatever group and others may do
+PERMS = {"F": (0o644, 0o654, 0o611, 0o655, 0o600, 0o666), "X": (0o755, 0o744, 0o700, 0o710, 0o764, 0o777)}
 KIND_OF_MODE = {v: k for k, v in MODES.items()}
 T0 = 1_000_000_000            # explicit file times start here (2001-09-09), one second per edit
 
@@ -51,7 +54,7 @@ def content_scheme(name: str, large: int = 200_000):
     """-> (file_bytes: {cid: bytes}, link_bytes: {cid: bytes}).  Sizes: |1| = |2| # |3| for both."""
     if name == "text":
         return ({1: b"alpha\n", 2: b"bravo\n", 3: b"charlie is longer\n", 4: b"delta\n", 5: b"e\n"},
-                {1: b"alpha", 2: b"bravo", 3: b"some/where/else", 4: b"delta", 5: b"e"})
+                {1: b"alpha", 2: b"./alpha", 3: b"some/where/else", 4: b"alpha/", 5: b"e"})     # 1, 2, 4: one place, three spellings
     if name == "shared":        # a file and a symlink with the same content id have the same blob id
         d = {1: b"t1", 2: b"t2", 3: b"t-three", 4: b"t4", 5: b"t"}
         return d, dict(d)
@@ -65,7 +68,7 @@ def content_scheme(name: str, large: int = 200_000):
                 {1: b"\xff\xfe", 2: b"\xfe\xff", 3: b"x" * 200, 4: b"\x80\x81", 5: b"\x01"})
     if name == "linkdir":       # link targets name existing (empty, hence invisible) directories, the parent, nothing
         return ({1: b"one\n", 2: b"two\n", 3: b"three!\n", 4: b"four\n", 5: b"5\n"},
-                {1: b"zdir", 2: b"zdir/sub", 3: b"nowhere", 4: b"./zdir/", 5: b".."})
+                {1: b"zdir", 2: b"./zdir/", 3: b"nowhere", 4: b"zdir/sub", 5: b".."})           # 1, 2: one directory, two spellings
     raise KeyError(name)
 
 
@@ -185,6 +188,7 @@ class World:
         self.broot = os.fsencode(root)
         self.git_dir = os.path.join(root, ".git")
         self.clock = 0
+        self.perms = 0          # 0: plain 0644 / 0755; otherwise unusual permission bits in rotation
         self.commits = {}       # frozen abstract tree -> commit hex
         self.tree_ids = {}      # frozen abstract tree -> tree hex
         self.env = git_env(home)
@@ -260,6 +264,11 @@ class World:
         t = (T0 + self.clock) * 1_000_000_000
         os.utime(fp, ns=(t, t), follow_symlinks=False)
 
+    def _perm(self, k: str) -> int:
+        if not self.perms:
+            return PERMS[k][0]
+        return PERMS[k][(self.perms + self.clock) % len(PERMS[k])]
+
     def _create(self, p, cell):
         k, c = cell
         fp = self.fs(p)
@@ -273,7 +282,7 @@ class World:
         else:
             with open(fp, "wb") as f:
                 f.write(self.scheme.data(k, c))
-            os.chmod(fp, 0o755 if k == "X" else 0o644)
+            os.chmod(fp, self._perm(k))
         self._stamp(fp)
 
     def _remove(self, p, prune=True):
@@ -306,7 +315,8 @@ class World:
 
     def edit_chmod(self, p, new):
         fp = self.fs(p)
-        os.chmod(fp, 0o755 if new[0] == "X" else 0o644)
+        self.clock += 1
+        os.chmod(fp, self._perm(new[0]))
         # chmod does not touch mtime; leave it: only ctime and the mode bits tell
 
     def edit_delete(self, p, prune=True):
